@@ -28,10 +28,11 @@ def mbc_override(kind):
     return ov
 
 
-def mapper_world(ctx, eng, ce, kind="mbc1", extra=None):
+def mapper_world(ctx, eng, ce, kind="mbc1", extra=None, ov_extra=None):
     st = State()
     ctx.seed_globals(st)
     ov = {"Audio.ch2.sweep": nil_value, "Mapper.mbc": mbc_override(kind)}
+    ov.update(ov_extra or {})
     w = World(eng, st, ov)
     m = w.component("memory.Mapper")
     eng.ev = ce
@@ -132,7 +133,10 @@ def routing_task(kind, cls, prop):
 
     def run(ctx, eng, ce):
         lem = Lem()
-        st0, w, m, env = mapper_world(ctx, eng, ce, kind)
+        # the serial port has a writer attached (an environment object whose Write calls are ghost output events): without one
+        # a lost SB write would be unobservable
+        from props.common import ext_iface
+        st0, w, m, env = mapper_world(ctx, eng, ce, kind, ov_extra=({"Serial.writer": ext_iface("writer")} if comp_ == "serial.Serial" else None))
         p = ctx.prog
         # callee contracts are NOT used here: both sides are the real code
         eng.modular = set()
